@@ -29,11 +29,15 @@ RULE = (
 )
 ASSUMPTIONS = ["lag() excluded (defined across rows); follow-up rows are training rows so that raise-mode splines stay in range"]
 
-NUM = ["x", "y", "p"]
+NUM = ["x", "y", "p", "body mass"]
 CAT = ["A", "B", "S"]
 
 
 def tnum(rng, v):
+    if not v.isidentifier():  # a column that can only be referenced through backticks
+        q = f"`{v}`"
+        return rng.choice([(q, "bare_q"), (f"center({q})", "center_q"), (f"scale({q})", "scale_q"), (f"poly({q}, 2)", "poly_q"),
+                           (f"bs({q}, df=4)", "bs_q"), (f"{{center({q}) + 1}}", "py_q"), (f"I(center({q}) ** 2)", "nested_q")])
     pos = v == "p"
     opts = [
         (v, "bare"), (f"center({v})", "center"), (f"scale({v})", "scale"), (f"scale({v}, ddof=0)", "scale"), (f"scale({v}, center=False)", "scale"),
@@ -75,6 +79,7 @@ def gen_case(rng: random.Random, tier: str) -> dict:
         ["x", {"kind": "num", "dtype": "float64", "values": [round(rng.gauss(0, 1), 6) for _ in range(n)]}],
         ["y", {"kind": "num", "dtype": "float64", "values": [round(rng.gauss(50, 100), 4) for _ in range(n)]}],
         ["p", {"kind": "num", "dtype": "float64", "values": [round(rng.uniform(0.5, 3), 6) for _ in range(n)]}],
+        ["body mass", {"kind": "num", "dtype": "float64", "values": [round(rng.gauss(70, 12), 3) for _ in range(n)]}],
         ["A", {"kind": "cat", "categories": lvA, "values": catvals(lvA)}],
         ["B", {"kind": "cat", "categories": rng.sample(lvB, 2), "values": catvals(lvB)}],
         ["S", {"kind": "text", "dtype": rng.choice(["object", "str"]), "values": catvals(lvS)}],
@@ -104,7 +109,7 @@ def gen_case(rng: random.Random, tier: str) -> dict:
     f = " + ".join([rng.choice(["1", "0"])] + [tstr(t) for t in terms])
     follow = []
     for _ in range(rng.randint(4, 6)):
-        kind = rng.choice(["same", "subset", "dup", "perm", "single", "lost_levels", "pickle", "via_function", "via_matrix"])
+        kind = rng.choice(["same", "subset", "dup", "perm", "single", "lost_levels", "pickle", "pickle", "deepcopy", "via_function", "via_matrix"])
         if kind == "same":
             rows = list(range(n))
         elif kind == "dup":
@@ -115,7 +120,7 @@ def gen_case(rng: random.Random, tier: str) -> dict:
             rows = [rng.randrange(n)]
         elif kind == "lost_levels":
             keep = rng.choice(lvA)
-            rows = [i for i in range(n) if frame["cols"][3][1]["values"][i] == keep] or [0]
+            rows = [i for i in range(n) if dict((k, v) for k, v in frame["cols"])["A"]["values"][i] == keep] or [0]
         else:
             rows = sorted(rng.sample(range(n), rng.randint(1, n)))
         follow.append({"kind": kind, "rows": rows})
@@ -157,6 +162,10 @@ def judge(case) -> Outcome:
                 if kind == "pickle":
                     sp = pickle.loads(pickle.dumps(spec))
                     m2 = sp.get_model_matrix(sub)
+                elif kind == "deepcopy":
+                    import copy
+
+                    m2 = copy.deepcopy(spec).get_model_matrix(sub)
                 elif kind == "via_function":
                     m2 = model_matrix(spec, sub)
                 elif kind == "via_matrix":
